@@ -350,11 +350,26 @@ def r5(ctx):
     outs_p = Ip.explore(lambda run: Ip.call(run, Ip.make_fn(run, PU), [Sym("url", "str")], {}, None))
     pos = {next((i for i, x in enumerate(o.value.items) if isinstance(x, C) and isinstance(x.v, bool)), None) for o in outs_p
            if o.kind == "return" and isinstance(o.value, Tup)}
-    subs = [n for n in ast.walk(idx.func("_app:WebSocketApp.run_forever").node)
-            if isinstance(n, ast.Subscript) and isinstance(n.value, ast.Call) and text(n.value.func) == "parse_url"]
-    ok = len(pos) == 1 and bool(subs) and all(isinstance(s.slice, ast.Constant) and s.slice.value in pos for s in subs)
+    # ... followed through run_forever itself: what reaches create_dispatcher's is_ssl parameter is parse_url's 4th element
+    from ..absint import CutoffSig
+    from ..appmodel import mk_app
+    cd = idx.func("_app:WebSocketApp.create_dispatcher", "R-C18-5").node
+    params = [a.arg for a in cd.args.posonlyargs + cd.args.args]
+
+    def cd_stub(I3, run, args, kwargs, node):
+        bound = dict(zip(params, args))
+        bound.update(kwargs)
+        run.effect("create_dispatcher", (bound.get("is_ssl", NONE),), node=node)
+        raise CutoffSig("dispatcher chosen")
+
+    I3 = Interp(idx, Config(stubs={"_app:WebSocketApp.create_dispatcher": cd_stub,
+                                   "_url:parse_url": lambda I3, run, a, k, n: Tup((Sym("u.host", "str"), Sym("u.port", "int"), Sym("u.resource", "str"), Sym("u.secure", "bool")))}))
+    outs3 = ctx.count_paths(I3.explore(lambda run: I3.call(run, I3.getattr(run, mk_app(I3, run), "run_forever", None), [], {}, None)))
+    got = [e.args[0] for o in outs3 for e in o.effects if e.name == "create_dispatcher"]
+    ok = len(pos) == 1 and 3 in pos and bool(got) and all(g == Sym("u.secure", "bool") for g in got)
     ctx.ob("_app:WebSocketApp.run_forever:security-flag-index", ok,
-           f"parse_url returns the flag at {sorted(pos)}; run_forever reads {[text(s.slice) for s in subs]}", idx.loc(subs[0]) if subs else "")
+           f"parse_url returns the flag at {sorted(pos)}; run_forever passes {sorted({repr(g) for g in got})} as is_ssl",
+           idx.loc(idx.func("_app:WebSocketApp.run_forever").node))
     # create_dispatcher: SSLDispatcher iff is_ssl
     Id = Interp(idx, Config())
     for flag, want in ((TRUE, "_dispatcher:SSLDispatcher"), (FALSE, "_dispatcher:Dispatcher")):
